@@ -1,4 +1,5 @@
 """Nodule that contains utilities for grounding PDDL+ actions."""
+from collections import Counter
 from typing import Dict, List, Set
 
 from anytree import AnyNode
@@ -28,19 +29,28 @@ def _iterate_calc_tree_and_ground(
             lifted_function: PDDLFunction = calc_node.value
             lifted_function_params = [param for param in lifted_function.signature]
             grounded_signature = {}
-            for index, parameter_name in enumerate(lifted_function_params):
-                if parameter_name in domain.constants:
-                    grounded_signature[parameter_name] = lifted_function.signature[
-                        parameter_name
-                    ]
+            grounded_arguments = []
+            for parameter_name in lifted_function_params:
+                grounded_argument = (
+                    parameter_name
+                    if parameter_name in domain.constants
+                    else parameters_map[parameter_name]
+                )
+                grounded_arguments.append(grounded_argument)
+                grounded_signature[grounded_argument] = lifted_function.signature[
+                    parameter_name
+                ]
 
-                else:
-                    grounded_signature[
-                        parameters_map[lifted_function_params[index]]
-                    ] = lifted_function.signature[parameter_name]
-
+            # two parameters bound to the same object collapse in the name-keyed signature.
+            repeating_arguments = {
+                argument: count
+                for argument, count in Counter(grounded_arguments).items()
+                if count > 1
+            }
             grounded_function = PDDLFunction(
-                name=lifted_function.name, signature=grounded_signature
+                name=lifted_function.name,
+                signature=grounded_signature,
+                repeating_variables=repeating_arguments,
             )
             return AnyNode(id=str(grounded_function), value=grounded_function)
 
